@@ -124,7 +124,8 @@ Definition check_clump (k : ccase) : bool * bool :=
 
 Record dcase := mkd {
   d_cand : list (Z * Z); d_idx : list (Z * Z); d_exact : bool;
-  d_obs : res (option Q)            (* the returned r2 as the exact value of the float; None = nan *)
+  d_obs : res (option Q);           (* the returned r2 as the exact value of the float; None = nan *)
+  d_roots : list Q                  (* Exact: the frequencies f00 that ComputeExactLD evaluated (recorded at _CalcLDStats) *)
 }.
 
 Definition Qabs_le (a b tol : Q) : bool := Qle_bool (a - b) tol && Qle_bool (b - a) tol.
@@ -137,11 +138,25 @@ Definition model_computeld (d : dcase) : exact_out :=
 
 Definition in01 (v : Q) : bool := Qle_bool 0 v && Qle_bool v 1.
 
+(* the cubic is not solved in the model: the root the implementation used is checked instead -
+   it lies in the admissible interval (+- 1e-5 as in _CalcBestRoot), it is a root of the model's
+   cubic up to 1e-9 * n, and the returned r2 is the model's r2 formula at that root (6 decimals) *)
+Definition tol_root : Q := 1 # 1000000000.
+Definition slack_hap : Q := 1 # 100000.
+Definition root_ok (t : tab) (o f : Q) : bool :=
+  Qle_bool (minhap t - slack_hap) f && Qle_bool f (maxhap t + slack_hap)
+  && Qabs_le (cubic t f) 0 (tol_root * t_n t)
+  && Qabs_le o (exact_r2 (t_p t) (t_q t) f) tol_exact.
+
 Definition agree_computeld (d : dcase) : bool :=
   match model_computeld d, d_obs d with
   | EX_nan, Ok None => true
   | EX_val v, Ok (Some o) => Qabs_le o v (if d_exact d then tol_exact else tol_pearson)
-  | EX_root _, Ok (Some o) => in01 o
+  | EX_root t, Ok (Some o) =>
+      match d_roots d with
+      | [] => Qeq_bool o 0                    (* no root in range: best_rsquared stays 0 *)
+      | fs => existsb (root_ok t o) fs
+      end
   | _, _ => false
   end.
 
